@@ -445,10 +445,29 @@ impl Driver {
         }
     }
 
+    /// Arm the multishot poll on the notifier if it is not armed.
+    fn push_notifier(&mut self) -> io::Result<()> {
+        if self.flags.contains(DriverFlags::NEED_PUSH_NOTIFIER) {
+            #[allow(clippy::useless_conversion)]
+            self.push_raw(
+                PollAdd::new(Fd(self.notifier.as_raw_fd()), libc::POLLIN as _)
+                    .multi(true)
+                    .build()
+                    .user_data(Self::NOTIFY)
+                    .into(),
+            )?;
+            self.flags.remove(DriverFlags::NEED_PUSH_NOTIFIER);
+        }
+        Ok(())
+    }
+
     pub fn flush(&mut self) -> bool {
         #[cfg(compio_verif)]
         crate::verif::point("flush:enter");
-        let succeed = self.submit_auto(Some(Duration::ZERO), false).is_ok();
+        // An external event loop waits on the ring descriptor after `flush`: the notifier must
+        // be armed by then, or a wake-up arriving before the first `poll` is never seen.
+        let succeed = self.push_notifier().is_ok()
+            && self.submit_auto(Some(Duration::ZERO), false).is_ok();
         #[cfg(compio_verif)]
         crate::verif::point("flush:after-submit");
         // If submission failed, return true to let the driver wake up immediately.
@@ -470,17 +489,7 @@ impl Driver {
         #[cfg(compio_verif)]
         crate::verif::point("poll:after-reset");
 
-        if self.flags.contains(DriverFlags::NEED_PUSH_NOTIFIER) {
-            #[allow(clippy::useless_conversion)]
-            self.push_raw(
-                PollAdd::new(Fd(self.notifier.as_raw_fd()), libc::POLLIN as _)
-                    .multi(true)
-                    .build()
-                    .user_data(Self::NOTIFY)
-                    .into(),
-            )?;
-            self.flags.remove(DriverFlags::NEED_PUSH_NOTIFIER);
-        }
+        self.push_notifier()?;
 
         #[cfg(compio_verif)]
         crate::verif::point("poll:before-wait");
